@@ -28,6 +28,30 @@ def int_args(w, signed):
     return vals
 
 
+def digit_pattern_values(rng, w, signed, n):
+    """values chosen for their digit strings rather than their bit patterns: zeros in the middle of the decimal / octal / hexadecimal text
+    (a digit generator that works in chunks must keep the leading zeros of the lower chunks), powers of ten and of the radix +-1, and
+    uniformly random values of every decimal length"""
+    b = 8 * w; top = 2 ** (b - 1) - 1 if signed else 2 ** b - 1
+    out = []
+    for k in range(1, 20):
+        for v in (10 ** k, 10 ** k - 1, 10 ** k + 1, 3 * 10 ** k + 7, 4 * 10 ** k + 12345678 % 10 ** max(k - 1, 1), 10 ** k + 10 ** (k // 2)):
+            if v <= top: out.append(v)
+    for k in (4, 8, 9, 12, 16):
+        for v in (16 ** k, 16 ** k + 1, 8 ** k, 8 ** k + 5, 5 * 16 ** k + 0xABC):
+            if v <= top: out.append(v)
+    for _ in range(n):
+        digits = rng.randrange(1, len(str(top)) + 1)
+        v = rng.randrange(10 ** (digits - 1), 10 ** digits)
+        s = list(str(v))
+        for j in range(len(s)):
+            if j and rng.random() < 0.35: s[j] = "0"
+        v = int("".join(s))
+        if v <= top: out.append(v)
+    if signed: out += [-x for x in out[::3]]
+    return out
+
+
 def directive_cases(rng, thorough):
     flagsets = [""] + ["".join(c) for n in range(1, 6) for c in itertools.combinations("-+ #0", n)]
     widths = ["", "0", "1", "5", "12", "*"]
@@ -69,6 +93,15 @@ def directive_cases(rng, thorough):
 
 def other_cases(rng, thorough):
     out = []
+    # values chosen for their digit strings (zeros inside the text, powers of ten and of the radix, every decimal length) through every
+    # integer conversion and length modifier, with a few flag / width / precision combinations
+    for ln, w in LENS.items():
+        for cv in "diuoxX":
+            vals = digit_pattern_values(rng, w, cv in "di", 60 if thorough else 12)
+            for v in vals:
+                f = "%" + rng.choice(["", "", "+", "0", "-", "#", "+0"]) + rng.choice(["", "", "15", "3"]) + rng.choice(["", "", ".12"]) + ln + cv
+                slot = v if cv in "di" else v & (2 ** (8 * w) - 1)
+                out.append("Pf %s i:%s" % (fmt([ord(x) for x in f]), fmt(le8(slot))))
     # %c (every byte), %s (empty, unterminated with precision, long), %p, %%, literal text
     for c in range(256):
         for f in ["%c", "%3c", "%-3c", "[%c]"]:
